@@ -868,6 +868,14 @@ class SymBytes:
             return True
         return builtins.bool(SymBool(z3.And([bv(a) == bv(b) for a, b in zip(self.items[len(self.items) - len(p):], p)])))
 
+    def rjust(self, width, fill=b'\x00'):
+        pad = max(0, width - len(self.items))
+        return SymBytes(list(fill) * pad + list(self.items))
+
+    def ljust(self, width, fill=b'\x00'):
+        pad = max(0, width - len(self.items))
+        return SymBytes(list(self.items) + list(fill) * pad)
+
     def lstrip(self, chars=None):
         if chars is None or list(chars) != [0]:
             raise NotImplementedError('lstrip other than b"\\x00"')
@@ -983,6 +991,20 @@ class SymHex:
     def __len__(self):
         return 2 * len(self.b)
 
+    def removeprefix(self, p):
+        # a hex rendering consists of hex digits only: it never starts with '0x'
+        return self
+
+    def startswith(self, p):
+        if isinstance(p, builtins.str) and p and any(ch not in '0123456789abcdef' for ch in p):
+            return False
+        raise NotImplementedError
+
+    def lstrip(self, chars=None):
+        if chars is not None and all(ch not in '0123456789abcdef' for ch in chars):
+            return self
+        raise Abort()  # stripping hex digits off an opaque rendering: outside the claim
+
     __hash__ = None  # type: ignore
 
 
@@ -1042,6 +1064,59 @@ class SymStr:
 
     def startswith(self, p):
         return self.b.startswith(p.encode() if isinstance(p, builtins.str) else p.b)
+
+    def removeprefix(self, p):
+        if len(p) <= len(self.b) and builtins.bool(self.startswith(p)):
+            return SymStr(SymBytes(list(self.b.items[len(p):])))
+        return self
+
+    def lstrip(self, chars=None):
+        if chars is None:
+            raise NotImplementedError
+        items = list(self.b.items)
+        k = 0
+        while k < len(items):
+            it = items[k]
+            if isinstance(it, builtins.int):
+                hit = chr(it) in chars
+            else:
+                hit = builtins.bool(SymBool(z3.Or([bv(it) == ord(ch) for ch in chars])))
+            if not hit:
+                break
+            k += 1
+        return SymStr(SymBytes(items[k:]))
+
+    def hex_decode(self):
+        """bytes.fromhex on symbolic ASCII text (whitespace between digits: outside the claim)."""
+        items = list(self.b.items)
+        if len(items) % 2:
+            raise ValueError('non-hexadecimal number found in fromhex() arg')
+        nib = []
+        for it in items:
+            if isinstance(it, builtins.int):
+                ch = chr(it)
+                if ch in ' \t\n\r\x0b\x0c':
+                    raise Abort()
+                if ch not in '0123456789abcdefABCDEF':
+                    raise ValueError('non-hexadecimal number found in fromhex() arg')
+                nib.append(builtins.int(ch, 16))
+                continue
+            c = bv(it)
+            ws = z3.Or(c == 32, z3.And(c >= 9, c <= 13))
+            if builtins.bool(SymBool(ws)):
+                raise Abort()
+            valid = z3.Or(z3.And(c >= 48, c <= 57), z3.And(c >= 97, c <= 102), z3.And(c >= 65, c <= 70))
+            if not builtins.bool(SymBool(valid)):
+                raise ValueError('non-hexadecimal number found in fromhex() arg')
+            nib.append(SymInt(z3.If(c <= 57, c - 48, z3.If(c >= 97, c - 87, c - 55))))
+        out = []
+        for k in range(0, len(nib), 2):
+            hi, lo = nib[k], nib[k + 1]
+            if isinstance(hi, builtins.int) and isinstance(lo, builtins.int):
+                out.append(hi * 16 + lo)
+            else:
+                out.append(SymInt(z3.simplify(bv(hi) * 16 + bv(lo))))
+        return _norm_bytes(out)
 
     def __getitem__(self, i):
         r = self.b[i]
@@ -1113,7 +1188,7 @@ class _Int(metaclass=_IntMeta):
     def from_bytes(b, byteorder='big', *, signed=False):
         if isinstance(b, SymBytes):
             if byteorder != 'big':
-                raise NotImplementedError
+                b = SymBytes(list(reversed(b.items)))
             n = len(b.items)
             if 8 * n > EX.W - (0 if signed else 1):
                 # may not fit: make it a width obligation on the leading bytes
@@ -1158,6 +1233,8 @@ class _Bytes(metaclass=_BytesMeta):
     def fromhex(h):
         if isinstance(h, SymHex):
             return h.b
+        if isinstance(h, SymStr):
+            return h.hex_decode()
         return builtins.bytes.fromhex(h)
 
 
